@@ -787,6 +787,11 @@ func (l *Loader) mergeResult(fetchItem *FetchItem, res *result, items []*astjson
 		// Multi-entity entry items carry no Fetch (nil) and have no trailing index in their
 		// data path, so the check does not apply to them.
 		if res.multi == nil && isEmptyEntityFetch(fetchItem, response) {
+			if hasErrors {
+				// no entity and errors: the fetch failed, it is not an empty result.
+				// The fetches depending on its fields have nothing to be built from.
+				l.recordErroredFetchIDLocked(fetchItem)
+			}
 			return nil
 		}
 
